@@ -293,7 +293,7 @@ func (w *worker) shrink(f *failure) *failure {
 	for changed := true; changed; {
 		changed = false
 		// fewer routes
-		for i := 0; i < len(cur.cfg.Routes) && len(cur.cfg.Routes) > 1; i++ {
+		for i := 0; i < len(cur.cfg.Routes); i++ {
 			c := cur.cfg.clone()
 			c.Routes = append(c.Routes[:i:i], c.Routes[i+1:]...)
 			if try(c, cur.rq) {
@@ -352,6 +352,22 @@ func (w *worker) shrink(f *failure) *failure {
 					return ok
 				},
 				func(r *routeSpec) bool {
+					ok := len(r.FromPrefixSets) > 0
+					r.FromPrefixes, r.FromPrefixSets = []string{"10.0.0.0/8"}, nil
+					return ok
+				},
+				func(r *routeSpec) bool {
+					ok := len(r.ToPrefixSets) > 0
+					r.ToPrefixes, r.ToPrefixSets = []string{"10.0.0.0/8"}, nil
+					return ok
+				},
+				func(r *routeSpec) bool {
+					ok := len(r.ExpPrefixSets) > 0
+					r.ExpPrefixes, r.ExpPrefixSets = []string{"10.9.0.0/16"}, nil
+					return ok
+				},
+				func(r *routeSpec) bool { ok := r.Client != "reject" && r.Client != "c1"; r.Client = "c1"; return ok },
+				func(r *routeSpec) bool {
 					ok := r.hasDomains() && !(len(r.ToDomains) == 1 && len(r.ToDomainSets) == 0)
 					r.ToDomains, r.ToDomainSets = []string{"example.com"}, nil
 					return ok
@@ -370,6 +386,13 @@ func (w *worker) shrink(f *failure) *failure {
 		if cur.cfg.DefaultTCP != "c0" || cur.cfg.DefaultUDP != "c0" {
 			c := cur.cfg.clone()
 			c.DefaultTCP, c.DefaultUDP = "c0", "c0"
+			if try(c, cur.rq) {
+				changed = true
+			}
+		}
+		if cur.cfg.Clients > 2 {
+			c := cur.cfg.clone()
+			c.Clients = 2
 			if try(c, cur.rq) {
 				changed = true
 			}
@@ -408,37 +431,91 @@ func (w *worker) shrink(f *failure) *failure {
 	return cur
 }
 
-// reqShape names the request coordinates that differ from the baseline.
+// reqShape names the request dimensions that differ from the baseline request
+// (values are in the violation text and the replay file, not in the signature).
 func reqShape(r *request) string {
 	var s []string
 	if r.Net != "tcp" {
-		s = append(s, "net="+r.Net)
+		s = append(s, "net=udp")
 	}
 	if r.Server != 0 {
-		s = append(s, fmt.Sprintf("server=s%d", r.Server))
+		s = append(s, "server")
 	}
 	if r.User != "a" {
-		s = append(s, fmt.Sprintf("user=%q", r.User))
+		s = append(s, "user")
 	}
-	if r.Src.Port() != 443 {
-		s = append(s, fmt.Sprintf("srcPort=%d", r.Src.Port()))
+	if r.Src.Port() == 0 {
+		s = append(s, "srcPort=0")
+	} else if r.Src.Port() != 443 {
+		s = append(s, "srcPort")
 	}
-	if r.Src.Addr() != baseReq.Src.Addr() {
-		s = append(s, "src="+r.Src.Addr().String())
+	if a := r.Src.Addr(); a != baseReq.Src.Addr() {
+		switch {
+		case a.Is4In6():
+			s = append(s, "src=v4-mapped")
+		case a.Is6():
+			s = append(s, "src=v6")
+		default:
+			s = append(s, "src")
+		}
 	}
-	if r.TPort != 443 {
-		s = append(s, fmt.Sprintf("dstPort=%d", r.TPort))
+	if r.TPort == 0 {
+		s = append(s, "dstPort=0")
+	} else if r.TPort != 443 {
+		s = append(s, "dstPort")
 	}
 	if r.Host != baseReq.Host {
-		s = append(s, "target="+r.Host)
+		switch {
+		case !r.isIP():
+			s = append(s, "target=domain")
+		case r.ip.Is4In6():
+			s = append(s, "target=v4-mapped-ip")
+		case r.ip.Is6():
+			s = append(s, "target=v6-ip")
+		default:
+			s = append(s, "target=ip")
+		}
 	}
 	if !r.isIP() && r.Beh != baseReq.Beh {
-		s = append(s, "r0="+r.Beh[0].String(), "r1="+r.Beh[1].String())
+		s = append(s, "r0="+r.Beh[0].Kind, "r1="+r.Beh[1].Kind)
 	}
 	if len(s) == 0 {
 		return "baseline"
 	}
 	return strings.Join(s, ",")
+}
+
+// roleNames names outcomes by role (which route's client), not by client name.
+func (f *failure) roleNames(m uint16) string {
+	var s []string
+	for i := 0; i < 8; i++ {
+		if m&oClient(i) == 0 {
+			continue
+		}
+		role := fmt.Sprintf("client c%d (no route's client)", i)
+		if i == 0 {
+			role = "client c0 (no route's client; the named default)"
+		}
+		for p := range f.cfg.Routes {
+			if f.cfg.Routes[p].Client == fmt.Sprintf("c%d", i) {
+				role = fmt.Sprintf("route %d's client", p+1)
+			}
+		}
+		s = append(s, role)
+	}
+	if m&oReject != 0 {
+		s = append(s, "ErrRejected")
+	}
+	if m&oError != 0 {
+		s = append(s, "error")
+	}
+	if m&oPanic != 0 {
+		s = append(s, "panic")
+	}
+	if len(s) == 0 {
+		return "nothing"
+	}
+	return strings.Join(s, " | ")
 }
 
 // signature names the failing shape (after shrinking).
@@ -456,7 +533,7 @@ func (f *failure) signature() string {
 	case "lookup":
 		return "lookup: " + f.cfg.shape() + " req[" + reqShape(&f.rq) + "]: " + f.detail
 	}
-	return "mismatch: " + f.cfg.shape() + " req[" + reqShape(&f.rq) + "]: got " + outcomeNames(f.got) + ", reference allows " + outcomeNames(f.allowed)
+	return "mismatch: " + f.cfg.shape() + " req[" + reqShape(&f.rq) + "]: got " + f.roleNames(f.got) + ", reference allows " + f.roleNames(f.allowed)
 }
 
 func (f *failure) what(dir string) string {
